@@ -349,6 +349,35 @@ def check_class(prog, rep, modname, cname):
             rep.fail("accessor-purity", k.module.path.name, fq, bad[0], f"{bad[1]}: `item in block` (a read) then changes the tracks it is compared with", construct=f"{fq} {norm(bad[0])[:60]}")
 
 
+def refusal_message_total(prog, rep, modname, cname, rule="getitem-contract"):
+    """The KeyError / TypeError of a lookup is the contract; building its message must not be able to raise something else first.
+    The message is text with the key interpolated (constant, f-string over names / attributes / len() / type() / repr() / str()):
+    a `%` or `.format` applied to text that already contains the key fails for keys such as '50%' or '{x}' (ValueError / KeyError
+    / IndexError from the formatting), and the caller sees that instead of the refusal."""
+    c = prog.need_cls(cname, modname)
+    mod = c.module.path.name
+    n = 0
+    for mname in ("__getitem__", "__contains__"):
+        f = prog.need_method(c, mname)
+        for r in [x for x in walk_no_nested(f.node) if isinstance(x, ast.Raise) and isinstance(x.exc, ast.Call)]:
+            for a in list(r.exc.args) + [k.value for k in r.exc.keywords]:
+                n += 1
+                bad = None
+                for y in ast.walk(a):
+                    if isinstance(y, (ast.Constant, ast.JoinedStr, ast.FormattedValue, ast.Name, ast.Attribute, ast.Load, ast.Subscript, ast.Tuple)):
+                        continue
+                    if isinstance(y, ast.Call) and isinstance(y.func, ast.Name) and y.func.id in ("type", "len", "repr", "str") and not y.keywords:
+                        continue
+                    bad = y
+                    break
+                if bad is not None:
+                    rep.fail(rule, mod, f"{cname}.{mname}", r, f"the message of `raise {norm(r.exc.func)}` is built with `{norm(bad)[:60]}`: formatting text that already contains the key can itself raise "
+                             "(a label with '%' or braces), and that error replaces the refusal", construct=f"{cname}.{mname} refusal message")
+                else:
+                    rep.ok(rule, f"{cname}.{mname}: message of {norm(r.exc.func)} is plain interpolation")
+    return n
+
+
 def run(prog, rep):
     rep.explanation = (
         "sibling cross-check over Data3D, ForceTorque3D, EMG, TemporalEventsData: the four accessors of a class read the same "
@@ -359,6 +388,7 @@ def run(prog, rep):
     n = 0
     for modname, cname in CLASSES:
         check_class(prog, rep, modname, cname)
+        rep.attempt(refusal_message_total, prog, rep, modname, cname)
         n += 4
     rep.floor("accessors", n, 16)
     rep.not_decided += ["bool / numpy-integer keys beyond what isinstance(key, int) says"]
